@@ -129,8 +129,24 @@ def run(ctx):
                     continue
                 break
             verdict = None
-            if site.get('k') == 'Match':
+            floop = enclosing_for(site, parents) if not chain or site.get('k') == 'Match' else None
+            if floop is not None:
+                # a `for` loop over the container: fine when all it does with the elements is push them onto local vectors
+                # that this function sorts with a total key afterwards
+                pushed = for_loop_pushes(floop)
+                if pushed:
+                    vs = []
+                    for lid in pushed:
+                        srt = [x for x in sorts if local_id_of(x.get('recv')) == lid]
+                        vs.append(sort_verdict(srt[0]) if srt else ('bad', 'pushed onto a vector that is never sorted in this function'))
+                    bad_ones = [v for v in vs if v[0] != 'ok']
+                    verdict = bad_ones[0] if bad_ones else ('ok', 'for loop pushing onto vector(s) that are ' + vs[0][1].replace('collected then ', ''))
+                elif site.get('k') == 'Match':
+                    verdict = ('bad', 'a `for` loop iterates an IdHash container directly in emit code')
+            elif site.get('k') == 'Match':
                 verdict = ('bad', 'a `for` loop iterates an IdHash container directly in emit code')
+            if verdict is not None:
+                pass
             elif chain and chain[-1] in INSENSITIVE:
                 verdict = ('ok', 'order-insensitive sink ' + chain[-1])
             elif chain and chain[-1] == 'collect':
@@ -149,20 +165,7 @@ def run(ctx):
                     if found is None:
                         verdict = ('bad', 'collected into %s and never sorted in this function' % cty[:60])
                     else:
-                        m = norm_path(found.get('callee')).split('::')[-1]
-                        if m in ('sort', 'sort_unstable'):
-                            verdict = ('ok', 'collected then %s()' % m)
-                        elif m in ('sort_by_key', 'sort_unstable_by_key', 'sort_by_cached_key'):
-                            cl = found['args'][0] if found.get('args') else {}
-                            kt = key_of(cl)
-                            if kt == 'whole':
-                                verdict = ('ok', 'collected then sorted by the whole element')
-                            elif kt and kt[0] == 'field0' and kt[1] in ('u32', 'usize', 'u64'):
-                                verdict = ('ok', 'collected then sorted by its leading index (.0: %s)' % kt[1])
-                            else:
-                                verdict = ('bad', 'collected and sorted by a partial key (%s): ties stay in hash order' % (kt,))
-                        else:
-                            verdict = ('bad', 'sorted with a custom comparator (%s) that the rule cannot show to be total' % m)
+                        verdict = sort_verdict(found)
             else:
                 verdict = None
                 par = parents.get(id(cur))
@@ -191,6 +194,76 @@ def run(ctx):
     if n_sites == 0:
         res.note('no IdHash iteration in emit-reachable code')
     return res
+
+
+def sort_verdict(found):
+    m = norm_path(found.get('callee')).split('::')[-1]
+    if m in ('sort', 'sort_unstable'):
+        return ('ok', 'collected then %s()' % m)
+    if m in ('sort_by_key', 'sort_unstable_by_key', 'sort_by_cached_key'):
+        cl = found['args'][0] if found.get('args') else {}
+        kt = key_of(cl)
+        if kt == 'whole':
+            return ('ok', 'collected then sorted by the whole element')
+        if kt and kt[0] == 'field0' and kt[1] in ('u32', 'usize', 'u64'):
+            return ('ok', 'collected then sorted by its leading index (.0: %s)' % kt[1])
+        return ('bad', 'collected and sorted by a partial key (%s): ties stay in hash order' % (kt,))
+    return ('bad', 'sorted with a custom comparator (%s) that the rule cannot show to be total' % m)
+
+
+def local_id_of(n):
+    while isinstance(n, dict) and (n.get('k') == 'AddrOf' or (n.get('k') == 'Unary' and n.get('op') == 'Deref')):
+        n = n['e'] if n['k'] == 'AddrOf' else n['a']
+    if isinstance(n, dict) and n.get('k') == 'Path' and n.get('res') == 'local':
+        return n.get('id')
+    return None
+
+
+def enclosing_for(site, parents):
+    """the `for` loop whose iterable expression `site` is (directly, or as the receiver of into_iter)"""
+    if site.get('k') == 'Match' and site.get('src') == 'ForLoopDesugar':
+        return site
+    cur = site
+    for _ in range(4):
+        par = parents.get(id(cur))
+        if par is None:
+            return None
+        if par.get('k') == 'Match' and par.get('src') == 'ForLoopDesugar':
+            return par
+        if par.get('k') in ('Call', 'AddrOf', 'MethodCall'):
+            cur = par
+            continue
+        return None
+    return None
+
+
+def for_loop_pushes(floop):
+    """ids of the local vectors the loop body pushes onto, or [] if the body does anything else order-dependent we
+    cannot see through (calls that receive `&mut` state other than those vectors are left to the other rules)"""
+    out = []
+    other = []
+
+    def walk(n):
+        if isinstance(n, dict):
+            if n.get('k') == 'MethodCall' and norm_path(n.get('callee') or '').endswith('Vec::push'):
+                lid = local_id_of(n.get('recv'))
+                if lid is not None and lid not in out:
+                    out.append(lid)
+                elif lid is None:
+                    other.append('push onto something that is not a local vector')
+            elif n.get('k') in ('Assign', 'AssignOp'):
+                other.append('assignment')
+            elif n.get('k') == 'MethodCall' and (n.get('recv_ty') or '').startswith('&mut') \
+                    and norm_path(n.get('callee') or '').split('::')[-1] not in ('next', 'into_iter'):
+                other.append('mutating call ' + norm_path(n.get('callee') or '').split('::')[-1])
+            for v in n.values():
+                walk(v)
+        elif isinstance(n, list):
+            for v in n:
+                walk(v)
+    body_arms = [a.get('body') for a in (floop.get('arms') or [])]
+    walk(body_arms)
+    return [] if other else out
 
 
 def sorted_by_helper(h):
